@@ -66,7 +66,10 @@ func (r Result) Outcome() string {
 }
 
 type Options struct {
-	Pool      *vm.ThreadPool
+	// PoolN > 0: run on a fresh thread pool of PoolN workers and queue capacity PoolQ whose workers print to the
+	// captured stdout; the pool is closed after the run.
+	PoolN, PoolQ int
+	Pool         *vm.ThreadPool
 	Flags     bitfield.BitField16
 	Name      string
 	NoRun     bool
@@ -105,10 +108,14 @@ func Compile(src string, o *Options) (fn *vm.BytecodeFunction, res Result) {
 
 // Exec runs a compiled function on a fresh VM thread.
 func Exec(fn *vm.BytecodeFunction, o *Options) (res Result) {
-	var out strings.Builder
+	var out syncBuilder
 	opts := []vm.Option{vm.WithStdout(&out), vm.WithStderr(&out)}
 	if o != nil {
-		if o.Pool != nil {
+		if o.PoolN > 0 {
+			tp := vm.NewThreadPool(o.PoolN, o.PoolQ, vm.WithStdout(&out), vm.WithStderr(&out))
+			defer tp.Close()
+			opts = append(opts, vm.WithThreadPool(tp))
+		} else if o.Pool != nil {
 			opts = append(opts, vm.WithThreadPool(o.Pool))
 		}
 		opts = append(opts, o.VMOptions...)
@@ -134,6 +141,24 @@ func Exec(fn *vm.BytecodeFunction, o *Options) (res Result) {
 	}
 	res.Value = val.Inspect()
 	return res
+}
+
+// syncBuilder is a strings.Builder safe for concurrent writers (pool workers and the main thread).
+type syncBuilder struct {
+	mu sync.Mutex
+	b  strings.Builder
+}
+
+func (s *syncBuilder) Write(p []byte) (int, error) {
+	s.mu.Lock()
+	defer s.mu.Unlock()
+	return s.b.Write(p)
+}
+
+func (s *syncBuilder) String() string {
+	s.mu.Lock()
+	defer s.mu.Unlock()
+	return s.b.String()
 }
 
 // Run = Compile + Exec.
